@@ -202,6 +202,23 @@ def run_case(case):
     except Exception as e:
         C["rejected_valid_in_model"] += 1
         M = None
+    # the same text compiled again, in the same process, for a model that declares the same species in another order
+    # (same names, same parameters): the formula's meaning does not depend on declaration order
+    sp_r = list(reversed(sp)) if len(sp) > 1 else list(sp)
+    if rj0.random() < 0.5:
+        rj0.shuffle(sp_r)
+    s2i_r = {s_: i_ for i_, s_ in enumerate(sp_r)}
+    try:
+        routes["reordered"] = parse_expression(text, s2i_r, p2i)
+        M3 = None
+        if M is not None:
+            M3 = Model(species=sp_r + ["Y"], reactions=[(["A"], ["B"], "general", {"rate": text})],
+                       parameters=[(p_, 1.0) for p_ in par + extra], rules=[("assignment", {"equation": "Y = " + text})],
+                       initial_condition_dict={s_: 1.0 for s_ in sp})
+            routes["reordered model"] = (M3, ModelCSimInterface(M3))
+        C["reordered_routes"] += 1
+    except Exception as e:
+        viol.append({"key": "C02/reordered-raises", "msg": "compiling %r again with the species declared as %r raised %r" % (text, sp_r, e)})
     rj = random.Random(util.digest(tree))
     nontrivial = False
     for pt in case["points"]:
@@ -263,6 +280,27 @@ def run_case(case):
                 st3 = xm.copy()
                 itf2.py_apply_repeated_rules(st3, t, True)
                 got["copied model: assignment rule"] = (st3[idx["Y"]], e1)
+        if "reordered" in routes:
+            xr = np.array([x[s_] for s_ in sp_r])
+            got["parse_expression (species declared as %s)" % ",".join(sp_r)] = (routes["reordered"].py_evaluate(xr.copy(), ps.copy(), t), e1)
+        if "reordered model" in routes:
+            M3, itf3 = routes["reordered model"]
+            idx3, pidx3 = M3.get_species2index(), M3.get_params2index()
+            x3 = np.zeros(len(sp) + 1)
+            for s_ in sp:
+                x3[idx3[s_]] = x[s_]
+            p3 = np.array(M3.get_parameter_values(), dtype=float)
+            for q in par:
+                p3[pidx3[q]] = p[q]
+            for q in extra:
+                p3[pidx3[q]] = p[q[1:]]
+            got["model with species declared as %s: general.py_get_volume_propensity" % ",".join(sp_r)] = (
+                M3.get_propensities()[0].py_get_volume_propensity(x3.copy(), p3.copy(), V, t), eV)
+            M3.set_params({q: p[q] for q in par})
+            M3.set_params({q: p[q[1:]] for q in extra})
+            st4 = x3.copy()
+            itf3.py_apply_repeated_rules(st4, t, True)
+            got["model with species declared as %s: assignment rule" % ",".join(sp_r)] = (st4[idx3["Y"]], e1)
         for route, (g, e) in got.items():
             C["accepted_evaluations"] += 1
             if not (math.isfinite(g) and close(g, e)):
